@@ -410,6 +410,14 @@ impl vstd::std_specs::convert::TryFromSpecImpl<Vec<u8>> for ByteString {
     open spec fn obeys_try_from_spec() -> bool { false }
     uninterp spec fn try_from_spec(s: Vec<u8>) -> Result<ByteString, str::Utf8Error>;
 }
+impl<const N: usize> vstd::std_specs::convert::TryFromSpecImpl<[u8; N]> for ByteString {
+    open spec fn obeys_try_from_spec() -> bool { false }
+    uninterp spec fn try_from_spec(s: [u8; N]) -> Result<ByteString, str::Utf8Error>;
+}
+impl<'a, const N: usize> vstd::std_specs::convert::TryFromSpecImpl<&'a [u8; N]> for ByteString {
+    open spec fn obeys_try_from_spec() -> bool { false }
+    uninterp spec fn try_from_spec(s: &'a [u8; N]) -> Result<ByteString, str::Utf8Error>;
+}
 impl vstd::std_specs::convert::TryFromSpecImpl<Bytes> for ByteString {
     open spec fn obeys_try_from_spec() -> bool { false }
     uninterp spec fn try_from_spec(s: Bytes) -> Result<ByteString, str::Utf8Error>;
@@ -448,6 +456,31 @@ impl TryFrom<&[u8]> for ByteString {
     ensures
         r.is_ok() <==> is_utf8(value@),   // [C20] accepts exactly what str::from_utf8 accepts
         r matches Ok(b) ==> b@ == value@,
+//@end
+}
+
+/// `array_impls!` generates these two impls for every length 0..=32: the macro's body is extracted (rule R28) with its
+/// metavariable `$len` bound to a const generic parameter, i.e. verified for EVERY length at once
+impl<const N: usize> TryFrom<[u8; N]> for ByteString {
+    type Error = str::Utf8Error;
+//@extract file=bytestring/src/lib.rs item="macro_rules! array_impls / impl TryFrom<[u8; $len]> for ByteString / fn try_from" ret=r props=C20 name=lib::try_from_array macro_vars="$len=N"
+//@spec
+    ensures
+        r.is_ok() <==> is_utf8(value@),   // [C20] accepts exactly what str::from_utf8 accepts — for every array length
+        r matches Ok(b) ==> b@ == value@,
+//@insert after="{"
+        proof { assert(value@.subrange(0, N as int) =~= value@); }   // the full-range slice of an array is the array
+//@end
+}
+impl<const N: usize> TryFrom<&[u8; N]> for ByteString {
+    type Error = str::Utf8Error;
+//@extract file=bytestring/src/lib.rs item="macro_rules! array_impls / impl TryFrom<&[u8; $len]> for ByteString / fn try_from" ret=r props=C20 name=lib::try_from_array_ref macro_vars="$len=N"
+//@spec
+    ensures
+        r.is_ok() <==> is_utf8(value@),   // [C20]
+        r matches Ok(b) ==> b@ == value@,
+//@insert after="{"
+        proof { assert(value@.subrange(0, N as int) =~= value@); }
 //@end
 }
 
